@@ -296,6 +296,11 @@ func (n *Node) setup(logDir string, requestID string) error {
 	n.mu.Lock()
 	defer n.mu.Unlock()
 
+	// The files opened below belong to this launch: they have to be flushed
+	// and closed by the teardown that follows it, also when the node is
+	// launched again for a retry.
+	n.done = false
+
 	// Set the log file path
 	n.data.State.StartedAt = time.Now()
 	n.data.State.Log = filepath.Join(logDir, fmt.Sprintf("%s.%s.%s.log",
